@@ -256,7 +256,7 @@ func drawHistory(rt *rapid.T, maxAcc, maxSteps int, val func(string) float64) *C
 
 func TestHistories(t *testing.T) {
 	ev.Rule(rule)
-	ev.Rapid(t, "c13-history", 1500, 160000, func(rt *rapid.T) {
+	ev.Rapid(t, "c13-history", 6000, 160000, func(rt *rapid.T) {
 		val := drawValues(rt)
 		maxSteps := 60
 		if rapid.IntRange(0, 9).Draw(rt, "long") == 0 {
@@ -268,7 +268,7 @@ func TestHistories(t *testing.T) {
 
 func TestSplits(t *testing.T) {
 	ev.Rule(rule)
-	ev.Rapid(t, "c13-split", 300, 30000, func(rt *rapid.T) {
+	ev.Rapid(t, "c13-split", 1500, 30000, func(rt *rapid.T) {
 		val := drawValues(rt)
 		n := rapid.IntRange(0, 40).Draw(rt, "n")
 		c := &SplitCase{Xs: []float64{}}
